@@ -952,10 +952,18 @@ class Node():
         :raises TypeError: if the given children parameter is not a list.
         '''
         if isinstance(my_children, list):
-            self.pop_all_children()  # First remove existing children if any
+            # First remove existing children if any
+            old_children = self.pop_all_children()
             self._children = ChildrenList(self, self._validate_child,
                                           self._children_valid_format)
-            self._children.extend(my_children)
+            try:
+                self._children.extend(my_children)
+            except Exception:
+                # Leave the tree as it was if the new list is not valid
+                self._children = ChildrenList(self, self._validate_child,
+                                              self._children_valid_format)
+                self._children.extend(old_children)
+                raise
         else:
             raise TypeError("The 'my_children' parameter of the node.children"
                             " setter must be a list.")
